@@ -1,4 +1,5 @@
 """C07 — a JSON array behaves as a sequence with null gaps under any operation history."""
+import os
 import random
 
 from vflib import core, build
@@ -257,8 +258,12 @@ def shard_fn(shard, nshards, seed, tier, exe, nhist):
 def run(tier, seed):
     bdir = build.build("asan")
     chk = core.Check(PID, tier, seed)
+    rd = core.record_dir(PID) if tier == "thorough" else None
     sh = core.parallel(shard_fn, seed=seed, tier=tier, exe=bdir + "/jcdrv", nhist=32000 if tier == "quick" else 300000)
     chk.absorb(sh)
+    if rd:
+        os.environ.pop("VF_RECORD_DIR", None)
+        core.memcheck_recorded(chk, build.build("plain"), rd)
     chk.rule = ("random histories (20-100 ops) on json_object_new_array_ext(n in {0,1,2,3,32}): add, put_idx (inside, ==len, len+{1..70}, SIZE_MAX, SIZE_MAX-1), insert_idx (same lattice), "
                 "del_idx over {0,1,len-1,len,len+1,SIZE_MAX}^2, shrink(0..3), sort + bsearch (NULL-safe comparator), get_idx; after EVERY step length and every index 0..len+2 are compared with a list-with-gaps "
                 "model, destruction callbacks (uids) with the model's release set, failed operations must leave ownership with the caller. evaluations = operations; distinct = distinct histories")
